@@ -145,7 +145,7 @@ def run_check(pid, tier):
     work = tempfile.mkdtemp(prefix="verif-%s-" % pid)
     statsdir = os.path.join(work, "stats")
     os.makedirs(statsdir)
-    replaydir = os.path.join(ROOT, "replays")
+    replaydir = os.environ.get("VERIF_REPLAYS_DIR") or os.path.join(ROOT, "replays")
     os.makedirs(replaydir, exist_ok=True)
     status = 0
     notes = []
@@ -345,8 +345,9 @@ def finish(pid, tier, seed, cfg, statsdir, t0, status, notes):
         "wall_s": round(time.time() - t0, 2),
         "violations": len(seen) if status == 1 else 0,
     }
-    os.makedirs(os.path.join(ROOT, "evidence"), exist_ok=True)
-    with open(os.path.join(ROOT, "evidence", pid + ".json"), "w") as f:
+    evdir = os.environ.get("VERIF_EVIDENCE_DIR") or os.path.join(ROOT, "evidence")  # redirected by tools/seedtest.py only
+    os.makedirs(evdir, exist_ok=True)
+    with open(os.path.join(evdir, pid + ".json"), "w") as f:
         json.dump(ev, f, indent=1)
     print("%s %s: exit=%d cases=%d nontrivial=%d wall=%.1fs %s" % (pid, tier, status, agg["cases"], len(agg["hashes"]), time.time() - t0, "; ".join(notes)))
     return status
